@@ -783,16 +783,23 @@ class Name(BaseName):
             return self._name.tree_name.is_definition()
 
     def __eq__(self, other):
+        # A class and an instance of that class are both named by the name
+        # of the class, they differ only in their api type. Without it
+        # `set(defs)` in `Script.infer` kept an arbitrary one of the two.
+        # `_name.api_type` is used instead of `type`, because it never needs
+        # to infer anything.
         return self._name.start_pos == other._name.start_pos \
             and self.module_path == other.module_path \
             and self.name == other.name \
+            and self._name.api_type == other._name.api_type \
             and self._inference_state == other._inference_state
 
     def __ne__(self, other):
         return not self.__eq__(other)
 
     def __hash__(self):
-        return hash((self._name.start_pos, self.module_path, self.name, self._inference_state))
+        return hash((self._name.start_pos, self.module_path, self.name,
+                     self._name.api_type, self._inference_state))
 
 
 class BaseSignature(Name):
